@@ -136,7 +136,11 @@ static event_t *new_event(rdsparser_t *r, int kind, long arg, void *ud)
             if (!inst[i].reg[kind]) snprintf(xmsg, sizeof xmsg, "X callback %d invoked although it is not registered", kind);
             else if (inst[i].ud != (unsigned long)(uintptr_t)ud) snprintf(xmsg, sizeof xmsg, "X callback %d got user data %lu, most recently set: %lu", kind, (unsigned long)(uintptr_t)ud, inst[i].ud);
         }
-    if (reent >= 1000) {
+    if (reent >= 5000) {
+        /* `ri 5000+j`: callback j resets the parser from inside the call (rdsparser_clear is an ordinary API call; nothing in
+         * the API forbids making it from a callback) */
+        if (kind == reent - 5000) { reent_count++; rdsparser_clear(r); }
+    } else if (reent >= 1000) {
         /* targeted form `ri 1000+100*j+4*k+bits`: only callback j acts — bit 0: it unregisters callback k, bit 1: it changes the user data */
         int j = (reent - 1000) / 100, k = ((reent - 1000) % 100) / 4, bits = reent & 3;
         if (kind == j) {
